@@ -319,6 +319,19 @@ def gen_garbled(ctx, rnd):
         r0, = rands(rnd, 1)
         yield Case("ws://a.example/", [DialSpec([("chunk", response("101", good_headers(key_of(r0), sub=sub)))], rand=r0)],
                    options={"subprotocols": offered}, tag="garbled")
+    # long heads: 150 further fields; complete (established), cut before the blank line (end of stream / silence), a malformed
+    # or undecodable line near the end — with the required fields first
+    many = [(f"X-Field-{i}", f"v{i}") for i in range(150)]
+    for kind in ("complete", "cut-2", "cut-4", "no-colon", "not-utf8", "required-last", "96", "97-cut", "99-cut"):
+        r0, = rands(rnd, 1)
+        k0 = key_of(r0)
+        full = response("101", good_headers(k0) + many)
+        raw = {"complete": full, "cut-2": full[:-2], "cut-4": full[:-4], "no-colon": full[:-4] + b"\r\nno colon here\r\n\r\n",
+               "not-utf8": full[:-4] + b"\r\nX: \xff\xfe\r\n\r\n", "required-last": response("101", many + good_headers(k0)),
+               "96": response("101", good_headers(k0) + many[:96]), "97-cut": response("101", good_headers(k0) + many[:97])[:-2],
+               "99-cut": response("101", good_headers(k0) + many[:99])[:-2]}[kind]
+        for tailk in ("eof", "silence"):
+            yield Case("ws://a.example/", [DialSpec([("chunk", raw)] + ([("eof",)] if tailk == "eof" else []), rand=r0)], tag="garbled")
 
 
 # ---------------------------------------------------------------------------------------------------
